@@ -9,7 +9,7 @@ RULE = ("cases: for each primitive, messages of every length around the block/pa
         "119,120,121,127,128,129,...; SHA-512: 111,112,113,127,128,129,239,240,...; SHA3-256: 134..137 and the 8-byte lane buffer; SipHash: 0..40, "
         "255..257 (uint8 counter wrap); Poly1305: 15,16,17,...; ChaCha20: 63,64,65,... and block counters 2^32-2..2^32-1) with random content, fed in "
         "every two-piece fragmentation that cuts at a boundary +-1, three-piece fragmentations whose cuts straddle block boundaries, byte-at-a-time, "
-        "empty pieces and seeded random fragmentations; longer random messages (up to ~2000 bytes); every SHA-256 case is run under every "
+        "empty pieces and seeded random fragmentations; every length 0..260 (thorough tier: 0..2000) with a random fragmentation; longer random messages (up to ~2000 bytes); every SHA-256 case is run under every "
         "implementation SHA256AutoDetect can select (standard, sse4+sse41, +avx2, x86_shani on this CPU) and must agree; SHA256D64 for 1..17 blocks; "
         "HMAC keys of length 0..3*block around block/2 and block; HKDF info lengths 0..128; AEAD: encryptions with every plaintext split, round "
         "trips, single-bit tampering of every tag byte and of random ciphertext / aad bits, arbitrary strings to Decrypt; FSChaCha20Poly1305 / "
@@ -104,6 +104,10 @@ def gen_md(name, block, bounds, rng, tier, nlong, per_len_cap):
         m = rbytes(rng, n)
         for f in rng.sample(fragmentations(rng, n, block, 2), 2):
             cases.append("%s %s %s" % (name, m, chunks_str(f)))
+    # every length 0..260 (thorough: 0..2000), one random fragmentation each
+    for n in range(0, 261 if tier == "quick" else 2001):
+        fr = fragmentations(rng, n, block, 1)
+        cases.append("%s %s %s" % (name, rbytes(rng, n), chunks_str(fr[-1])))
     return cases
 
 
